@@ -230,6 +230,9 @@ func checkC14(e *Env, r *Report) {
 	r.Sample(recs[0])
 	r.Sample(recs[len(recs)-1])
 	runAaLogTrace(e, r, recs, "C14")
+	if r.Fatal == "" {
+		lineModel(e, r, "C14")
+	}
 }
 
 func compactLog(lg []logLine) string {
